@@ -8,7 +8,8 @@
 
    reachable cfg g  :=  exists tr, grun fixed cfg (ginit cfg) tr = Some g. *)
 From Coq Require Import List Arith Bool.
-From PV Require Import Model.Pool Proofs.PoolProofs Model.PoolLaunch Proofs.PoolLaunchProofs.
+From PV Require Import Model.Pool Proofs.PoolProofs Model.PoolLaunch Proofs.PoolLaunchProofs
+  Model.GrpcJsonStart Proofs.GrpcJsonStartProofs.
 Import ListNotations.
 
 (* the correspondence run and the theorems are about the same variant of the code *)
@@ -241,6 +242,58 @@ Theorem C05_launch_before_schedule_refuted :
 Proof. exact launch_first_leaves_running. Qed.
 Print Assumptions C05_launch_before_schedule_refuted.
 
+(* ---- C05_provider_reports: "if the ammo provider ... fails, the run returns an error" needs
+   the provider to report its failure; the read loop of the grpc/json provider
+   (Model/GrpcJsonStart.v = grpcjson.(Provider).start) for every file, limit, pass count ------ *)
+
+(* Run to its end without being cancelled, start returns a failure exactly when the
+   specification says this configuration has to report one: an undecodable line among the
+   lines it wants (unless ContinueOnError), a scanner error (read failure, over-long line) it
+   runs into, or an empty file -- whatever the number of passes, whichever pass is the last. *)
+Theorem C05_grpcjson_failure_iff_spec : forall cf f fuel,
+  1 <= fuel -> jres_is_failure (fst (gj_start fuel cf f None)) = gj_spec_fails cf f.
+Proof. exact gj_failure_iff_spec. Qed.
+Print Assumptions C05_grpcjson_failure_iff_spec.
+
+(* a scanner error is never swallowed: not on the last allowed pass, not when a limit is set
+   that the file cannot satisfy *)
+Theorem C05_grpcjson_scan_error_never_swallowed : forall cf f fuel,
+  1 <= fuel -> jend f = TErr -> (j_limit cf = 0 \/ length (jlines f) <= j_limit cf) ->
+  jres_is_failure (fst (gj_start fuel cf f None)) = true.
+Proof. exact gj_scan_error_never_swallowed. Qed.
+Print Assumptions C05_grpcjson_scan_error_never_swallowed.
+
+Theorem C05_grpcjson_decode_error_never_swallowed : forall cf f fuel,
+  1 <= fuel -> j_coe cf = false -> existsb is_bad (gj_wanted cf f) = true ->
+  jres_is_failure (fst (gj_start fuel cf f None)) = true.
+Proof. exact gj_decode_error_never_swallowed. Qed.
+Print Assumptions C05_grpcjson_decode_error_never_swallowed.
+
+(* nil from an uncancelled run means there was nothing to report *)
+Theorem C05_grpcjson_nil_means_no_failure : forall cf f fuel d,
+  1 <= fuel -> gj_start fuel cf f None = (JNil, d) -> gj_spec_fails cf f = false.
+Proof. exact gj_nil_means_no_failure. Qed.
+Print Assumptions C05_grpcjson_nil_means_no_failure.
+
+(* ... and that the pool really ran out of ammo: the run delivered Passes times the file, cut at Limit *)
+Theorem C05_grpcjson_nil_means_all_delivered : forall cf f fuel d,
+  gj_start fuel cf f None = (JNil, d) -> d = gj_spec_delivered cf f.
+Proof. exact gj_nil_delivered. Qed.
+Print Assumptions C05_grpcjson_nil_means_all_delivered.
+
+(* the pass budget the correspondence run gives the model is enough (no OutOfFuel outcome) *)
+Theorem C05_grpcjson_fuel_enough : forall cf f,
+  (j_passes cf <> 0 \/ j_limit cf <> 0) -> fst (gj_start (gj_fuel cf) cf f None) <> JOutOfFuel.
+Proof. exact gj_fuel_enough. Qed.
+Print Assumptions C05_grpcjson_fuel_enough.
+
+(* the files of the correspondence run: k good lines, then a failing read / an over-long line *)
+Theorem C05_grpcjson_read_failure_reported : forall cf k m fuel,
+  1 <= fuel -> (j_limit cf = 0 \/ k <= j_limit cf) ->
+  jres_is_failure (fst (gj_start fuel cf (gj_file k m PoRead) None)) = true.
+Proof. exact gj_file_read_failure_reported. Qed.
+Print Assumptions C05_grpcjson_read_failure_reported.
+
 (* ---- the tree before the fix commits --------------------------------------------------- *)
 
 (* #4 (fixed by a0becc0): schedule factory error with a shared profile: Wait() never returns *)
@@ -300,3 +353,12 @@ Example C05_example_stopped_at_wait :
   outstanding_at_wait fixed [1] (ginit [1]) (tr ++ [GvPool 0 (PvMsg (AggrRes ENil) ChSend)]) = Some 0 /\
   outstanding_at_wait fixed [1] (ginit [1]) [GvPool 0 (PvPre PreSchedFail)] = Some 0.
 Proof. split; [eexists; eexists; split; [vm_compute; reflexivity|repeat split]|split; reflexivity]. Qed.
+
+(* the grpc/json read loop: two good lines then a read failure, one pass (the last one) --
+   reported, two ammo delivered; the same file behind a limit of 1 is never read that far *)
+Example C05_example_grpcjson :
+  gj_start 1 {| j_limit := 0; j_passes := 1; j_coe := false |} (gj_file 2 2 PoRead) None = (JFailScan, 2) /\
+  gj_spec_fails {| j_limit := 0; j_passes := 1; j_coe := false |} (gj_file 2 2 PoRead) = true /\
+  gj_start 1 {| j_limit := 1; j_passes := 1; j_coe := false |} (gj_file 2 2 PoRead) None = (JNil, 1) /\
+  gj_start 3 {| j_limit := 0; j_passes := 3; j_coe := false |} (gj_file 2 1 PoNone) None = (JNil, 9).
+Proof. repeat split. Qed.
